@@ -5,6 +5,7 @@ import PasfmtModel.Proofs.PipelineC01
 import PasfmtModel.Model.Contracts
 import PasfmtModel.Proofs.LexBoundaries
 import PasfmtModel.Proofs.MlsSim
+import PasfmtModel.Proofs.CaseConfined
 
 namespace Pasfmt.C01
 
@@ -131,5 +132,21 @@ example : WrapFrame { parser := fun raw => { kinds := raw.map (·.kind.toTokenTy
   induction ft with
   | nil => exact .nil
   | cons t r ih => exact .cons ⟨id, Sim.refl _⟩ ih
+
+/-- **C01, second clause: where case may change.**  For every parser behaviour, every token that
+    reaches the wrapper stage relates to the scanned token it came from in one of three ways: its
+    content differs in blanks only (exactly — not up to case; this is what the line-comment rule
+    does, and "no change" is a special case); or the parser typed it as a keyword and it is that text
+    lower-cased; or it is a compiler directive `{$name…}` / `(*$name…*)` whose name — the run of letters,
+    digits, `_`, `+`, `-`, `,` directly after the `$` — is upper-cased while the opener and everything
+    after the name are kept byte for byte.  (The wrapper stage itself changes contents of multi-line
+    strings only, as the re-indenter does: contract `wrapContentB`, evaluated per case.) -/
+theorem case_changes_confined (O : Oracles) (raw : List RawTok) :
+    All2 (fun (r : RawTok) (t : FTok) => CaseRel t.tok.kind r.content t.tok.content) raw (preWrap O raw).2.2 :=
+  preWrap_caseRel O raw
+
+/-- the directive clause is met by `{$ifdef foo}`: the name `ifdef` is upper-cased, ` foo}` is kept -/
+example : formatCompilerDirective "{$ifdef foo}".toUTF8.toList = some "{$IFDEF foo}".toUTF8.toList := by
+  decide +kernel
 
 end Pasfmt.C01
